@@ -12,6 +12,7 @@
  R4 key agreement: every key an element's to_json emits under params / operational is a key its parameter class reads.
  Rp presence      : optional numeric fields are tested with `is None` / membership, never by truthiness (0 is a value).
  R6 padding cache : the cached design span loss is raised by the att_in of the fibre that was padded (and initialised from span_loss).
+ Rx export keys   : each loaded parameter is exported under the key its loader reads it from.
 """
 import ast
 
@@ -294,8 +295,23 @@ def r6_padding_cache(ctx):
 
 
 
+WHY_EXPORT = 'export -> reload would move the value to another parameter'
+
+def rx_export_keys(ctx):
+    """Rx: an element exports each loaded parameter under the key its loader reads it from (to_json key -> attribute -> params
+    class -> configuration key): a saved and reloaded network carries every table under its own policy / name"""
+    from ..fieldkey import export_key_rule
+    repo = ctx.repo
+    P = 'gnpy.core.parameters'
+    E = 'gnpy.core.elements'
+    pairs = [(repo.cls('Roadm', E), [repo.cls('RoadmParams', P)]), (repo.cls('Fiber', E), [repo.cls('FiberParams', P)]),
+             (repo.cls('Fused', E), [repo.cls('FusedParams', P)])]
+    export_key_rule(ctx, 'Rx.export-keys', pairs, WHY_EXPORT)
+    ctx.need('Rx.export-keys', 3)
+
+
 from ..presence import rule_for as _presence_rule
 
 RULES_PRESENCE = ('Rp.presence', _presence_rule('C17', 'a value of exactly 0 would be exported as missing and re-designed on reload'))
 
-RULES = [('R5.handoff', r5_handoff), ('R1.bracket', r1_bracket), ('R2.completeness', r2_completeness), ('R3.fix-point', r3_fixpoints), ('R4.keys', r4_keys), RULES_PRESENCE, ('R6.padding-cache', r6_padding_cache)]
+RULES = [('R5.handoff', r5_handoff), ('R1.bracket', r1_bracket), ('R2.completeness', r2_completeness), ('R3.fix-point', r3_fixpoints), ('R4.keys', r4_keys), RULES_PRESENCE, ('R6.padding-cache', r6_padding_cache), ('Rx.export-keys', rx_export_keys)]
